@@ -175,6 +175,107 @@ pub fn tr(id: u16) -> impl Fn(&Rv) + Copy + Send + 'static {
     }
 }
 
+// ---- Option flavour (`Option<Val>`): a failure has no payload ---------------------------------------
+pub type Ov = Option<Val>;
+pub fn enc_ov(o: &Ov) -> Vec<u16> {
+    match o {
+        Some(v) => {
+            let mut h = vec![OKM];
+            h.extend_from_slice(&v.h);
+            h
+        }
+        None => vec![ERRM],
+    }
+}
+pub fn srco(id: u16) -> Ov {
+    src(id).ok()
+}
+pub fn alto(id: u16) -> Ov {
+    src(id).ok()
+}
+/// `=>` Option::and_then
+pub fn qo(id: u16) -> impl Fn(Val) -> Ov + Copy + Send + 'static {
+    eval_point(id);
+    move |v| {
+        let f = call_point(id, &v.h);
+        if f & FAIL != 0 {
+            None
+        } else {
+            Some(v.push(id))
+        }
+    }
+}
+/// `?>` Option::filter
+pub fn fo(id: u16) -> impl Fn(&Val) -> bool + Copy + Send + 'static {
+    eval_point(id);
+    move |v| call_point(id, &v.h) & FAIL == 0
+}
+/// `<=` Option::or_else
+pub fn ro(id: u16) -> impl Fn() -> Ov + Copy + Send + 'static {
+    eval_point(id);
+    move || {
+        let f = call_point(id, &[]);
+        if f & FAIL != 0 {
+            None
+        } else {
+            Some(Val::new(id))
+        }
+    }
+}
+/// `??` inspect
+pub fn io(id: u16) -> impl Fn(&Ov) + Copy + Send + 'static {
+    eval_point(id);
+    move |o| {
+        call_point(id, &enc_ov(o));
+    }
+}
+/// `->` on an `Ov`
+pub fn to(id: u16) -> impl Fn(Ov) -> Ov + Copy + Send + 'static {
+    eval_point(id);
+    move |o| {
+        let f = call_point(id, &enc_ov(&o));
+        match o {
+            Some(v) if f & FAIL == 0 => Some(v.push(id)),
+            _ => None,
+        }
+    }
+}
+/// `->` on a `Val`, yielding `Ov` (inside `=> >>>`)
+pub fn tvo(id: u16) -> impl Fn(Val) -> Ov + Copy + Send + 'static {
+    qo(id)
+}
+/// `->` on a `&Val`, yielding bool (inside `?> >>>`)
+pub fn tbo(id: u16) -> impl Fn(&Val) -> bool + Copy + Send + 'static {
+    fo(id)
+}
+/// `->` on a `&Ov`, yielding `()` (inside `?? >>>`)
+pub fn tro(id: u16) -> impl Fn(&Ov) + Copy + Send + 'static {
+    io(id)
+}
+pub fn snapo(id: u16, o: &Ov) {
+    log(K::Snap, id, &enc_ov(o));
+}
+impl Arg for Ov {
+    fn enc(&self) -> Vec<u16> {
+        enc_ov(self)
+    }
+}
+/// Body of a sync `and_then` handler, Option flavour.
+pub fn hro(id: u16, args: &[&dyn Arg]) -> Ov {
+    let fail = plan::get(id) & FAIL != 0;
+    let v = hv(id, args);
+    if fail {
+        None
+    } else {
+        Some(v)
+    }
+}
+impl Stamp for Ov {
+    fn stamp(self) -> Self {
+        self.map(|v| v.push(STAMP))
+    }
+}
+
 /// Block-capture marker: `{ cap(ID); probe }`. With HOLD it lingers so that anything running
 /// concurrently (which a correct expansion does not have) becomes visible.
 pub fn cap(id: u16) {
